@@ -96,7 +96,7 @@ def run(rep, tier, seed, rng):
     names = ["m0", "m1", "m2", "f0"]
     base = []
     from .. import directed
-    for f, c in directed.cases():
+    for f, c in directed.cases_portable():
         for kind in ("select", "disable", "define"):
             if c.get(kind): base.append((f, c, kind))
     for _ in range(nproj):
